@@ -1554,6 +1554,52 @@ class Interp(seq_detached.DetachedMixin, S.SeqRun):
                       '%s returned %r (status %s), a different Python object than the one the session holds for that key '
                       '(%r, status %s)' % (what, got, got._status_, th, th._status_))
 
+    def op_proxy_reuse(self, a, b, c):
+        """a proxy that has been dereferenced, then: the object is deleted, the delete flushed, a new object created
+        under the same (program-chosen) primary key - the proxy has to hand out the new object (C11)"""
+        if not hasattr(self, 'proxies'):
+            self.proxies = {}
+        cands = [o for o in self.live_sorted() if o.stored and o.pk is not None
+                 and not self.schema.by_name[o.ent].auto_pk
+                 and not any(x.is_rel for x in self.schema.by_name[o.ent].pk_attrs)]
+        if not cands:
+            return
+        mo = cands[a % len(cands)]
+        e = self.schema.by_name[mo.ent]
+        key = (mo.ent, mo.pk)
+        h = self.handle_or_poison(mo.mid)
+        if key not in self.proxies:
+            self.proxies[key] = core.make_proxy(h)
+            self.probe('proxy_made')
+        proxy = self.proxies[key]
+        what = 'r_proxy proxy of %s%r' % (mo.ent, mo.pk)
+        ok, got = self.read(what + ' [first]', lambda: proxy._get_object(), exp_exc=core.ObjectNotFound)
+        if not ok or got is not h:
+            self.viol('C11', 'proxy-returned-other-object', mo.ent, '%s did not return the object held for that key' % what)
+            return
+        kw = dict((x.name, jcopy(mo.vals.get(x.name))) for x in e.scalars() if not x.is_json and mo.vals.get(x.name) is not None)
+        rels = dict((ra.name, self.view.get_one(ra, mo.mid)) for ra in e.to_ones()
+                    if ra.required and self.view.get_one(ra, mo.mid) is not None)
+        if self.op_del_of(mo) != 'ok':
+            return
+        self.op_flush()
+        if any(self.view.objs[m].deleted for m in rels.values()):
+            return
+        self._create(e, kw, rels, {})
+        holders = [o for o in self.view.live(mo.ent) if o.pk == mo.pk]
+        if not holders:
+            return
+        self.probe('proxy_key_recreated')
+        ok, got = self.read(what + ' [key re-created]', lambda: proxy._get_object(), exp_exc=core.ObjectNotFound)
+        if not ok:
+            self.viol('C10', 'object-not-found', mo.ent, '%s raised ObjectNotFound for an object present in the view' % what)
+            return
+        th = self.handle_or_poison(holders[-1].mid)
+        if got is not th:
+            self.viol('C11', 'proxy-returned-other-object', mo.ent,
+                      '%s returned %r (status %s), a different Python object than the one the session holds for that key '
+                      '(%r, status %s)' % (what, got, got._status_, th, th._status_))
+
     def _probe_pk(self, mo):
         e = self.schema.by_name[mo.ent]
         ask = mo.ent
@@ -2041,7 +2087,7 @@ class Interp(seq_detached.DetachedMixin, S.SeqRun):
                     g_before = simdb.ctx.g
                     if (self.blind or self.peer) and name in ('commit', 'rollback'):
                         name = 'flush'       # a carried-on session is rolled back at its end, nowhere else
-                    if self.peer and name in ('bulk_del', 'peer', 'cycle', 'fail_probe', 'partial', 'chain'):
+                    if self.peer and name in ('bulk_del', 'peer', 'cycle', 'fail_probe', 'partial', 'chain', 'proxy_reuse'):
                         continue
                     try:
                         self.dispatch(name, a, b, c)
@@ -2220,6 +2266,9 @@ class Interp(seq_detached.DetachedMixin, S.SeqRun):
             self.op_r_pk(a, b, c)
         elif name == 'r_proxy':
             self.op_r_proxy(a, b, c)
+        elif name == 'proxy_reuse':
+            if not self.knobs.get('hook_mode'):
+                self.op_proxy_reuse(a, b, c)
         elif name == 'r_get':
             self.op_r_get(a, b, c)
         elif name == 'r_exists':
